@@ -340,6 +340,8 @@ def post_angle(ctx, call):
                 u, v = b - a, c - a
                 if np.linalg.norm(u) > 1e-9 and np.linalg.norm(v) > 1e-9:
                     want = ("vec", u, v)
+                else:
+                    want = ("deg", u, v)  # the vertex coincides with another point: no angle is defined, raising is legitimate
         elif len(args) == 2:
             x, y = args
             if isinstance(x, PlaneTensor) != isinstance(y, PlaneTensor):
@@ -349,7 +351,7 @@ def post_angle(ctx, call):
                 if u is not None and v is not None and np.linalg.norm(u) > 1e-9 and np.linalg.norm(v) > 1e-9:
                     want = ("vec", u, v)
         refs.append((pos, es, want))
-    if all(w is None for _, _, w in refs):
+    if all(w is None or w[0] == "deg" for _, _, w in refs):
         ctx.skip("angle", "configuration not judged")
         return
     if call.exc is not None:
@@ -358,7 +360,7 @@ def post_angle(ctx, call):
             cu = np.linalg.norm(np.cross(u, v)) if len(u) == 3 else abs(u[0] * v[1] - u[1] * v[0])
             return cu < 1e-9 * np.linalg.norm(u) * np.linalg.norm(v)
 
-        if type(call.exc).__name__ in ("LinearDependenceError", "NotCoplanar") and (type(call.exc).__name__ == "NotCoplanar" or any(w is not None and par(w) for _, _, w in refs)):
+        if type(call.exc).__name__ in ("LinearDependenceError", "NotCoplanar") and (type(call.exc).__name__ == "NotCoplanar" or any(w is not None and (w[0] == "deg" or par(w)) for _, _, w in refs)):
             ctx.skip("angle", "coincident / skew lines (degenerate configuration)")
             return
         ctx.judge("angle", False, list(args), what=f"angle raised {type(call.exc).__name__}: {str(call.exc)[:100]}", op="angle", feat={**feat, "exc": type(call.exc).__name__})
@@ -369,7 +371,7 @@ def post_angle(ctx, call):
         return
     ctx.note(("angle_kinds", "-".join(feat["kinds"]) + f":dim{dim}"))
     for pos, es, want in refs:
-        if want is None:
+        if want is None or want[0] == "deg":
             ctx.skip("angle", "position not judged")
             continue
         _, u, v = want
@@ -549,10 +551,14 @@ def g_dist(ctx, rng, i):
                 continue
             ctx.judge("isometry", abs(d0 - d1) <= 1e-6 * max(1, d0), [x, y, t], what=f"dist changes under an isometry: {d0} vs {d1}", op="dist∘isometry", nontrivial=True)
         try:
+            if p == q or p == r:
+                raise core.GeometrySkip()
             a0, a1 = float(g.angle(p, q, r)), float(g.angle(t * p, t * q, t * r))
             det = np.linalg.det(np.asarray(t.array)[:-1, :-1])
             ok = _angle_mod_pi_close(a0, a1 if det > 0 else -a1) if dim == 2 else _angle_mod_pi_close(abs(a0), abs(a1))
             ctx.judge("isometry", ok, [p, q, r, t], what=f"angle changes under an isometry: {a0} vs {a1}", op="angle∘isometry", nontrivial=True)
+        except core.GeometrySkip:
+            ctx.skip("isometry", "vertex coincides with another point")
         except Exception as e:
             ctx.judge("isometry", False, [p, q, r], what=f"angle raised {type(e).__name__}", op="angle∘isometry")
     elif kind == 9:
@@ -623,18 +629,7 @@ def g_angle(ctx, rng, i):
         pass
 
 
-def _tolerant(fn):
-    """Random draws occasionally produce coincident defining points; constructors then raise LinearDependenceError (C02). Calls of
-    dist/angle that raise are judged by the monitors before the exception reaches the workload."""
-    def run(ctx, rng, i):
-        from geometer.exceptions import GeometryException
-
-        try:
-            fn(ctx, rng, i)
-        except GeometryException:
-            ctx.note(("workload", "case aborted by a degenerate random draw"))
-
-    return run
+_tolerant = core.tolerant
 
 
 g_dist = _tolerant(g_dist)
